@@ -13,7 +13,8 @@ of the model `(⟨size, bs⟩ : Tree).postOrderChunks`.  Here:
 * `planPostWF_none_iff'` / `planPostWF_sound_partial` — what a passing plan guarantees.
 
 Clauses (`BaoProofs/Lemmas/SpecPostL.lean`): `LeavesTile`, `StackOk`, `RootLast`, `ParentsPersisted`,
-`BothChildren`.
+`BothChildren`, `SpansOk` (the walk with a stack of chunk spans: every parent comes right after its
+two subtrees).
 -/
 
 namespace Bao.SpecPost
@@ -82,6 +83,19 @@ example : (true = true ∧ true = true) :=
           decide +kernel]
       simp)
 
+/-- clause 6 (from the recursion `plan = left ++ right ++ [parent]` of
+`C15Post.parent_after_subtree`: the span walk over the plan of a subtree pushes exactly the chunk
+span of that subtree, clipped to the blob, and `Node.mid` of the parent is where the two halves
+meet): the span walk over the model plan runs through, and ends with the single span
+`[0, nChunks size)` -/
+theorem clause_spans (size bs : Nat) (hs : size ≤ 2 ^ 63) (hbs : bs ≤ 10) :
+    SpansOk (Tree.postOrderChunks ⟨size, bs⟩) ∧
+    spanRun [] (Tree.postOrderChunks ⟨size, bs⟩) = some [(0, Spec.nChunks size)] :=
+  ⟨⟨_, span_plan size bs hs hbs⟩, span_plan size bs hs hbs⟩
+
+example : spanRun [] (Tree.postOrderChunks ⟨5000, 1⟩) = some [(0, 5)] :=
+  (clause_spans 5000 1 (by decide) (by decide)).2
+
 /-! ## no false alarm -/
 
 /-- the predicate never rejects the model plan -/
@@ -89,7 +103,7 @@ theorem planPostWF_model (size bs : Nat) (hs : size ≤ 2 ^ 63) (hbs : bs ≤ 10
     planPostWF size bs (Tree.postOrderChunks ⟨size, bs⟩) = none :=
   (planPostWF_none_iff size bs _).mpr
     ⟨clause_leaves size bs hs hbs, clause_stack size bs hs hbs, clause_root size bs hs hbs,
-      clause_parents size bs hs hbs, clause_both size bs hs hbs⟩
+      clause_parents size bs hs hbs, clause_both size bs hs hbs, (clause_spans size bs hs hbs).1⟩
 
 example : planPostWF 5000 0 (⟨5000, 0⟩ : Tree).postOrderChunks = none := by decide +kernel
 
@@ -98,11 +112,11 @@ example : planPostWF (2 ^ 63) 10 (⟨2 ^ 63, 10⟩ : Tree).postOrderChunks = non
 
 /-! ## what a passing plan guarantees -/
 
-/-- the predicate is the conjunction of its five clauses (both directions; for every `size`, `bs`) -/
+/-- the predicate is the conjunction of its six clauses (both directions; for every `size`, `bs`) -/
 theorem planPostWF_none_iff' (size bs : Nat) (plan : List Chunk) :
     planPostWF size bs plan = none ↔
       LeavesTile size bs plan ∧ StackOk plan ∧ RootLast plan ∧ ParentsPersisted size bs plan ∧
-      BothChildren plan :=
+      BothChildren plan ∧ SpansOk plan :=
   planPostWF_none_iff size bs plan
 
 example : planPostWF 2048 0
@@ -113,9 +127,11 @@ example : planPostWF 2048 0
 at chunk `i·2^bs` = byte `i·g`, `g = 2^bs·1024`, has at most `g` bytes, ends where leaf `i+1`
 starts, the last leaf ends at `size`; there are `nBlocks` leaves); the hash stack never underflows
 on a prefix and ends at height 1; the root flag is on exactly the last item; the parents are exactly
-`Spec.persistedPost size bs`, in that order; every parent flags both children.
-(`_partial`: this unfolds the predicate; it does not say that the plan IS the model plan, which the
-predicate does not enforce — see the example below.) -/
+`Spec.persistedPost size bs`, in that order; every parent flags both children; the span walk runs
+through (on every prefix), and every parent item finds, at its position, the spans of two subtrees
+on top of the span stack — adjacent and meeting exactly at `Node.mid node`.
+(`_partial`: this unfolds the predicate; that the plan IS the model plan up to the `ranges` fields
+is not derived here — see the status block.) -/
 theorem planPostWF_sound_partial (size bs : Nat) (plan : List Chunk)
     (h : planPostWF size bs plan = none) :
     ((leavesOf plan).length = Spec.nBlocks size bs ∧
@@ -126,9 +142,13 @@ theorem planPostWF_sound_partial (size bs : Nat) (plan : List Chunk)
     (stackRun 0 plan = some 1 ∧ ∀ a b, plan = a ++ b → ∃ s, stackRun 0 a = some s) ∧
     (∃ init last, plan = init ++ [last] ∧ rootFlag last = true ∧ ∀ c ∈ init, rootFlag c = false) ∧
     parentsOf plan = Spec.persistedPost size bs ∧
-    (∀ node r l rr rs, Chunk.parent node r l rr rs ∈ plan → l = true ∧ rr = true) := by
-  obtain ⟨h1, h2, h3, h4, h5⟩ := (planPostWF_none_iff size bs plan).mp h
-  refine ⟨⟨?_, ?_⟩, ⟨h2, fun _ _ hab => stack_prefix h2 hab⟩, split_of_rootLast h3, h4, ?_⟩
+    (∀ node r l rr rs, Chunk.parent node r l rr rs ∈ plan → l = true ∧ rr = true) ∧
+    ((∃ st, spanRun [] plan = some st) ∧ (∀ a b, plan = a ++ b → ∃ s, spanRun [] a = some s) ∧
+      ∀ a node r l rr rs b, plan = a ++ Chunk.parent node r l rr rs :: b →
+        ∃ ls re rest, spanRun [] a = some ((Node.mid node, re) :: (ls, Node.mid node) :: rest)) := by
+  obtain ⟨h1, h2, h3, h4, h5, st, h6⟩ := (planPostWF_none_iff size bs plan).mp h
+  refine ⟨⟨?_, ?_⟩, ⟨h2, fun _ _ hab => stack_prefix h2 hab⟩, split_of_rootLast h3, h4, ?_,
+    ⟨st, h6⟩, fun _ _ hab => span_prefix h6 hab, fun _ _ _ _ _ _ _ hab => span_at_parent h6 hab⟩
   · rw [h1, wantLeaves_length]
   · intro i hi
     have hi' : i < (wantLeaves size bs).length := by rw [wantLeaves_length]; exact hi
@@ -149,7 +169,7 @@ theorem planPostWF_sound_views (size bs : Nat) (hs : size ≤ 2 ^ 63) (hbs : bs 
     leavesOf plan = leavesOf (Tree.postOrderChunks ⟨size, bs⟩) ∧
     parentsOf plan = parentsOf (Tree.postOrderChunks ⟨size, bs⟩) ∧
     plan.length = (Tree.postOrderChunks ⟨size, bs⟩).length := by
-  obtain ⟨h1, _, _, h4, _⟩ := (planPostWF_none_iff size bs plan).mp h
+  obtain ⟨h1, _, _, h4, _, _⟩ := (planPostWF_none_iff size bs plan).mp h
   have m1 := clause_leaves size bs hs hbs
   have m4 := clause_parents size bs hs hbs
   unfold LeavesTile at h1 m1
@@ -190,19 +210,31 @@ example : planPostWF 2048 0
     [.leaf 0 1024 false [], .leaf 1 1000 false [], .parent 0 true true true []] ≠ none := by
   decide +kernel
 
-/-! ## the predicate does not characterise the model plan
+/-! ## the interleaving is checked (clause 6)
 
-The clauses look at the leaves, the parents, the stack height and the flags separately; they do
-not relate a parent item to the leaves it pops.  For `(4096, 0)` the plan
-`L0 L1 L2 L3 P0 P2 P1` passes (the model plan is `L0 L1 P0 L2 L3 P2 P1`). -/
+Clauses 1–5 look at the leaves, the parents, the stack height and the flags separately.  For
+`(4096, 0)` the plan `L0 L1 L2 L3 P0 P2 P1` (model plan: `L0 L1 P0 L2 L3 P2 P1`) meets all of them;
+it is rejected by the span walk: `P0` finds the spans of `L3` and `L2` on top, which meet at chunk
+3, not at `Node.mid 0 = 1`. -/
 example :
     planPostWF 4096 0 [.leaf 0 1024 false [], .leaf 1 1024 false [], .leaf 2 1024 false [],
       .leaf 3 1024 false [], .parent 0 false true true [], .parent 2 false true true [],
-      .parent 1 true true true []] = none ∧
-    (⟨4096, 0⟩ : Tree).postOrderChunks ≠ [.leaf 0 1024 false [], .leaf 1 1024 false [],
-      .leaf 2 1024 false [], .leaf 3 1024 false [], .parent 0 false true true [],
-      .parent 2 false true true [], .parent 1 true true true []] := by
+      .parent 1 true true true []] = some "a parent does not come right after its two subtrees" := by
   decide +kernel
+
+/-- … and it is clause 6 alone that rejects it -/
+example :
+    let plan : List Chunk := [.leaf 0 1024 false [], .leaf 1 1024 false [], .leaf 2 1024 false [],
+      .leaf 3 1024 false [], .parent 0 false true true [], .parent 2 false true true [],
+      .parent 1 true true true []]
+    LeavesTile 4096 0 plan ∧ StackOk plan ∧ RootLast plan ∧ ParentsPersisted 4096 0 plan ∧
+      spanRun [] plan = none := by
+  intro plan
+  unfold LeavesTile StackOk RootLast ParentsPersisted
+  refine ⟨?_, ?_, ?_, ?_, ?_⟩ <;> decide +kernel
+
+/-- the model plan of the same blob passes -/
+example : planPostWF 4096 0 (⟨4096, 0⟩ : Tree).postOrderChunks = none := by decide +kernel
 
 end Bao.SpecPost
 
@@ -218,17 +250,29 @@ PROVED (no sorry; axioms: propext, Classical.choice, Quot.sound at most):
   * `clause_both`, `clause_both_parent`
                               — clause 5 (`BothChildren`), from the `planRec` recursion of
                                 `C15Post.parent_after_subtree`.
-  * `planPostWF_none_iff'`    — predicate = conjunction of the five clauses (iff, all `size`, `bs`).
+  * `clause_spans`            — clause 6 (`SpansOk`), from the same recursion: the span walk over the
+                                plan of a subtree pushes exactly its chunk span clipped to the blob
+                                (`span_planD`); the walk over the whole plan ends with
+                                `[(0, nChunks size)]`.
+  * `planPostWF_none_iff'`    — predicate = conjunction of the six clauses (iff, all `size`, `bs`).
   * `planPostWF_sound_views`  — a passing plan has the model's leaves, parents and length.
   (lemmas in `SpecPostL.lean`: `planPostWF_none_iff`, `rootLast_of_split`, `split_of_rootLast`,
-   `both_planRec`, `length_views`, `wantLeaves_eq/_length/_get/_tile`.)
+   `both_planRec`, `length_views`, `wantLeaves_eq/_length/_get/_tile`, `spanRun_*`, `span_prefix`,
+   `span_at_parent`, `block_start_lt`, `nChunks_le_of_blocks_le`, `leaf_span`, `midOf_shift`,
+   `span_planD`, `span_plan`.)
 PARTIAL:
   * `planPostWF_sound_partial` — what a passing plan guarantees (leaves tile `[0, size)` in group-sized
     pieces, stack discipline incl. every prefix, root flag on the last item only, parents =
-    `Spec.persistedPost size bs`, both-children flags).  Missing for a full converse: "a passing plan
-    IS the model plan" is FALSE for this predicate — it does not tie a parent item to the position
-    where its two subtrees are complete; counterexample `(4096, 0)`, `L0 L1 L2 L3 P0 P2 P1` passes
-    (last example above).  The flag / ranges fields of leaf items other than `is_root` are not
-    constrained either (`ranges` is ignored by every clause).
-OPEN: none.
+    `Spec.persistedPost size bs`, both-children flags, span walk incl. every prefix and the two
+    adjacent spans meeting at `Node.mid node` below every parent item).
+OPEN:
+  -- OPEN: theorem planPostWF_unique (hs : size ≤ 2^63) (hbs : bs ≤ 10)
+  --   (h : planPostWF size bs plan = none) :
+  --   plan.map Chunk.withoutRanges = (Tree.postOrderChunks ⟨size, bs⟩)
+  -- (with clause 6 the interleaving of leaves and parents should be determined: the former
+  -- counterexample `(4096, 0)`, `L0 L1 L2 L3 P0 P2 P1`, is now rejected.  Missing: an invariant of
+  -- the span stack — starts strictly increasing, every span ends where the next one starts, the
+  -- next leaf starts where the top span ends — from which "the first item where two passing plans
+  -- differ" is contradictory.  The `ranges` fields are ignored by every clause, hence
+  -- `withoutRanges`.)
 -/
